@@ -238,6 +238,19 @@ func Build(s Spec, o *Obs, newMetrics func() service.ServiceMetrics) func() {
 				cl.ReadAll()
 				cl.Close()
 				finish(cl)
+			case "cipher-rst":
+				// a probe whose sender resets the connection while the server is absorbing it
+				co.Want = "ERR_CIPHER"
+				wire = make([]byte, 80+cs.Var)
+				io.ReadFull(vrt.DetRand(seed), wire)
+				cl := world.Dial(from)
+				cl.Send(wire, 0)
+				vrt.Sleep(time.Second)
+				if cl.C != nil {
+					cl.C.SetLinger(0)
+				}
+				cl.Close()
+				finish(cl)
 			case "replay-client":
 				co.Want = "ERR_REPLAY_CLIENT"
 				// same seed as connection 0 (class ok, same cipher) => same salt
